@@ -676,9 +676,74 @@ def bounded(rep, tier):
         shutil.rmtree(tmp, ignore_errors=True)
 
 
+def shared_node_obligations(rep):
+    """a tree node, plan step or plan that lives at module level (or as a class attribute) is handed to every caller that reaches it: grammar actions and
+    planner methods write into the nodes they receive (alias, parentheses, flags), so such an object carries state from one call into the next and between
+    threads.  Census over the name spaces of every imported mindsdb_sql module and of every class defined there."""
+    import importlib, pkgutil, inspect
+    import mindsdb_sql
+    from mindsdb_sql.parser.ast.base import ASTNode
+    from mindsdb_sql.parser.ast.create import TableColumn
+    from mindsdb_sql.planner.steps import PlanStep
+    from mindsdb_sql.planner.query_plan import QueryPlan
+    kinds = (ASTNode, TableColumn, PlanStep, QueryPlan)
+
+    def holds(v, depth=0):
+        if isinstance(v, kinds):
+            return True
+        if depth < 2 and isinstance(v, (list, tuple, set, frozenset)):
+            return any(holds(x, depth + 1) for x in v)
+        if depth < 2 and isinstance(v, dict):
+            return any(holds(x, depth + 1) for x in v.values())
+        return False
+    bad, n = [], 0
+    for mi in pkgutil.walk_packages(mindsdb_sql.__path__, 'mindsdb_sql.'):
+        try:
+            m = importlib.import_module(mi.name)
+        except Exception:
+            continue
+        for an, av in list(vars(m).items()):
+            n += 1
+            if not an.startswith('__') and holds(av):
+                bad.append(f'{m.__name__}.{an}')
+        for _n, k in inspect.getmembers(m, inspect.isclass):
+            if k.__module__ != m.__name__:
+                continue
+            for an, av in list(vars(k).items()):
+                n += 1
+                if not an.startswith('__') and holds(av):
+                    bad.append(f'{m.__name__}.{k.__name__}.{an}')
+    fn = 'mindsdb_sql:parse_sql'
+    clause = 'no module-level or class-level name of the library is bound to a tree node / plan step / plan (every call builds its own)'
+    if n == 0:
+        rep.undecided('C20.globals.shared-node', 'frames', 'no module name space inspected', function=fn)
+    elif not bad:
+        rep.proved('C20.globals.shared-node', 'frames', f'{n} module- and class-level bindings inspected', function=fn, clause=clause)
+    else:
+        rep.failed('C20.globals.shared-node', 'frames', f'shared object(s): {", ".join(sorted(set(bad))[:5])}', function=fn, clause=clause, replay=replay_shared_node())
+
+
+def replay_shared_node():
+    """history witness: two statements parsed one after the other; the second tree must not see what actions wrote into the first"""
+    from mindsdb_sql import parse_sql
+    pairs = [("SELECT NULL AS x, (NULL), TRUE AS t, (FALSE), 1 AS one, 'a' AS s, * , (a) AS b FROM t1 AS tt", "SELECT NULL, TRUE, FALSE, 1, 'a', *, a FROM t1")]
+    for d in ('mindsdb', 'mysql', 'sqlite'):
+        for first, second in pairs:
+            try:
+                alone = parse_sql(second, d).to_string()
+                parse_sql(first, d)
+                after = parse_sql(second, d).to_string()
+            except Exception:
+                continue
+            if alone != after:
+                return {'input': f'{first} ; then {second}', 'dialect': d, 'fires': True, 'observed': f'second statement prints {after!r} after the first was parsed, {alone!r} alone', 'expected': alone}
+    return {'input': None, 'observed': 'no stock history shows the shared object'}
+
+
 def check(rep, tier):
     from vlib import statecensus
     statecensus.obligations(rep, 'C20', 'all')
+    shared_node_obligations(rep)
     rep.dropped = 'function bodies read with ast.parse; census over the source text of every mindsdb_sql module'
     rep.assume('T3: entry points whose writes are confined to objects they allocate compute a function of their arguments under any interleaving',
                'CPython: set.add / `in` on the single shared set are atomic under the GIL', 'thread schedules are not explored (outside contract-based deduction)')
